@@ -288,7 +288,7 @@ theorem rightSide_private_defs (t : ExternalTask) (fuel : Nat) (ΓR : Theory) (h
     ∃ Γ, completion (tauStar t.program) t.userGuide.inputs = some Γ ∧
     ∀ F ∈ Γ, (∃ q ∈ t.progPrivate, headPredicate F = some q) →
       sat ⟨restrictTo (ext t.program.preds t.userGuide.inputs)
-        (renamedInterp (t.specPrivate.filter (· ∈ t.progPrivate)) J.pred), J.fc⟩ F ρ := by
+        (renamedInterp t.clashMap J.pred), J.fc⟩ F ρ := by
   -- without simplification the translated theory is the completion itself, followed by the empty
   -- definitions of the output predicates the program does not mention
   have hΓ : ∃ Γ, completion (tauStar t.program) t.userGuide.inputs = some Γ ∧
@@ -313,7 +313,7 @@ theorem rightSide_private_defs (t : ExternalTask) (fuel : Nat) (ΓR : Theory) (h
     simp only [List.mem_filter, decide_eq_true_eq] at hq
     exact hq.2
   obtain ⟨a, ha, hfa, hrole⟩ := controlTranslate_assumption t.userGuide.publicPreds ΓR ([], 0) F hFR q hhead hqpub
-  have := hpriv { a with formula := a.formula.renamePreds (t.specPrivate.filter (· ∈ t.progPrivate)) }
+  have := hpriv { a with formula := a.formula.renamePreds t.clashMap }
     (List.mem_map.mpr ⟨a, ha, rfl⟩) hrole
   simp only [hfa] at this
   rw [sat_restrict J.fc _ _ F ρ fun q' hq' => mem_ext.mpr (Or.inl (completion_preds t.program _ hp Γ hΓ F hF q' hq'))]
